@@ -5,6 +5,7 @@ import (
 	"go/ast"
 	"go/token"
 	"go/types"
+	"golang.org/x/tools/go/packages"
 	"sort"
 	"strconv"
 	"strings"
@@ -477,6 +478,10 @@ func c01R3(c *Ctx) {
 				found++
 				fn := enclosingFuncName(stack)
 				allowed := pkg.PkgPath == "servitor/ansi" || (pkg.PkgPath == "servitor" && fn == "printRaw")
+				if !allowed && pkg.PkgPath == "servitor" && fn == "<package>" {
+					// a named constant of package main that only printRaw uses
+					allowed = onlyUsedIn(pkg, stack, "printRaw")
+				}
 				sort.Strings(ctl)
 				c.check(allowed, pkg.PkgPath+"."+fn+"/control-literal", P.Pos(lit.Pos()), pkg.PkgPath+"."+fn,
 					"control bytes "+strings.Join(ctl, ",")+" inside the SGR generator / raw terminal writer",
@@ -503,8 +508,9 @@ func enclosingFuncName(stack []ast.Node) string {
 // ReplaceAll of) the input, and the mapping function returns its argument only
 // on paths where the rune is '\n' or unicode.IsControl is known false, and -1
 // otherwise. A shortcut that returns the input untouched is accepted only
-// under the fact that strings.ContainsFunc / IndexFunc with unicode.IsControl
-// found nothing; a hand-written pre-scan (bytes below 0x20, say) is not, since
+// under the facts that strings.ContainsFunc / IndexFunc with unicode.IsControl
+// found nothing and that utf8.ValidString holds (seed C01-2r7: strings.Map
+// also replaces invalid bytes, raw C1 among them); a hand-written pre-scan (bytes below 0x20, say) is not, since
 // it has to agree with unicode.IsControl on all of Unicode (C1 controls are
 // two bytes in UTF-8).
 func scrubIsTotal(c *Ctx) {
@@ -568,8 +574,20 @@ func scrubIsTotal(c *Ctx) {
 				return filterDropsControls(mf)
 			}
 			if derivedFromInput(v) {
-				// the input itself: only where a whole-string test with unicode.IsControl found nothing
+				// the input itself: only where a whole-string test with unicode.IsControl found
+				// nothing AND the input is known to be valid UTF-8 — strings.Map turns every
+				// invalid byte into U+FFFD, so the filter also removes raw 8-bit C1 bytes
+				// (0x9B is CSI to a terminal in 8-bit mode), which no rune predicate sees
+				validUTF8 := false
 				for _, f := range factsOf(fn).At(blk) {
+					if call, isCall := f.Cond.(*ssa.Call); isCall && f.Truth && isLibCall(&call.Call, "unicode/utf8", "", "ValidString") && derivedFromInput(call.Call.Args[0]) {
+						validUTF8 = true
+					}
+				}
+				for _, f := range factsOf(fn).At(blk) {
+					if !validUTF8 {
+						break
+					}
 					if call, isCall := f.Cond.(*ssa.Call); isCall && !f.Truth && isLibCall(&call.Call, "strings", "", "ContainsFunc") && isControlPred(call.Call.Args[1]) && derivedFromInput(call.Call.Args[0]) {
 						return true, ""
 					}
@@ -580,6 +598,9 @@ func scrubIsTotal(c *Ctx) {
 							}
 						}
 					}
+				}
+				if !validUTF8 {
+					return false, "the input is returned unfiltered on a path that does not know it to be valid UTF-8: the filter (strings.Map) also turns raw bytes such as 0x9B — CSI to a terminal in 8-bit mode, invisible to any rune predicate — into U+FFFD, a shortcut does not"
 				}
 				return false, "the input is returned unfiltered on a path whose only assurance is a hand-written scan: it must agree with unicode.IsControl on every rune (C1 controls U+0080–U+009F are two bytes, none of them below 0x20)"
 			}
@@ -636,4 +657,42 @@ func filterDropsControls(mf *ssa.Function) (bool, string) {
 		}
 	}
 	return true, ""
+}
+
+// onlyUsedIn: the literal on top of the stack is the value of a package-level
+// constant or variable declaration all of whose names are used in function
+// fname only (and at least once).
+func onlyUsedIn(pkg *packages.Package, stack []ast.Node, fname string) bool {
+	var spec *ast.ValueSpec
+	for i := len(stack) - 1; i >= 0; i-- {
+		if vs, ok := stack[i].(*ast.ValueSpec); ok {
+			spec = vs
+			break
+		}
+	}
+	if spec == nil {
+		return false
+	}
+	objs := map[types.Object]bool{}
+	for _, nm := range spec.Names {
+		if o := pkg.TypesInfo.Defs[nm]; o != nil {
+			objs[o] = true
+		}
+	}
+	uses, ok := 0, true
+	for _, f := range pkg.Syntax {
+		for _, d := range f.Decls {
+			fd, isFn := d.(*ast.FuncDecl)
+			ast.Inspect(d, func(n ast.Node) bool {
+				if id, isID := n.(*ast.Ident); isID && objs[pkg.TypesInfo.Uses[id]] {
+					uses++
+					if !isFn || fd.Name.Name != fname || fd.Recv != nil {
+						ok = false
+					}
+				}
+				return true
+			})
+		}
+	}
+	return ok && uses > 0
 }
